@@ -1084,7 +1084,7 @@ class BridgeMonitor:
         self.b_order = b_order          # a write response stands for completed slave-side writes (1:1 bridges)
         self.s_wr_done = 0
         self.hang = hang
-        self.idle_cycles = 0
+        self.idle = {}
         self.t = 0
         self.strict = getattr(inst, "strict_env", False) and inst.env is not None
 
@@ -1178,14 +1178,31 @@ class BridgeMonitor:
                 self.s_wr_done = max(0, self.s_wr_done - need)
         if msg:
             return "master side: " + msg
-        # ---- progress
+        # ---- progress (per direction: the read and write paths of a bridge may be independent)
         if self.hang:
-            busy = self.inst.nontrivial(letter, outs)
-            pend = self.m_or.outstanding() if self.m_kind in ("axl", "axi", "ahb") else bool(m["cyc"] and m["stb"])
-            if busy or not pend:
-                self.idle_cycles = 0
+            def hs(chs):
+                for side in ("m.", "s."):
+                    for v, r in chs:
+                        if d.get(side + v) and d.get(side + r):
+                            return True
+                return False
+            if self.m_kind in ("axl", "axi"):
+                o = self.m_or
+                wr_pend = bool(getattr(o, "aw", None) or getattr(o, "w", None) or getattr(o, "aws", None) or
+                               getattr(o, "wbeats", None) or m["awvalid"] or m["wvalid"])
+                rd_pend = bool(getattr(o, "rd", None) or getattr(o, "rds", None) or m["arvalid"])
+                dirs = (("write", wr_pend, hs((("awvalid", "awready"), ("wvalid", "wready"), ("bvalid", "bready"),
+                                               ("stb", "ack")))),
+                        ("read", rd_pend, hs((("arvalid", "arready"), ("rvalid", "rready"), ("stb", "ack")))))
             else:
-                self.idle_cycles += 1
-                if self.idle_cycles >= self.hang:
-                    return "no handshake on any channel for %d cycles while a request is pending (hang)" % self.hang
+                pend = self.m_or.outstanding() if self.m_kind == "ahb" else bool(m["cyc"] and m["stb"])
+                dirs = (("bus", pend, self.inst.nontrivial(letter, outs)),)
+            for name, pend, busy in dirs:
+                if busy or not pend:
+                    self.idle[name] = 0
+                else:
+                    self.idle[name] = self.idle.get(name, 0) + 1
+                    if self.idle[name] >= self.hang:
+                        return "no handshake on any %s channel for %d cycles while a %s request is pending (hang)" % (
+                            name, self.hang, name)
         return None
